@@ -1148,6 +1148,43 @@ def extra(rng, tier):
                                        "out": "first: %s | second: %s" % (pretty(out1)[:200], pretty(out2)[:200]),
                                        "why": "second request on the same response object (first: %s): %s" % (first, why)})
     obs["reuse_runs"] = runs
+    # the file has been truncated to half its size since the response object was built (with the old stat result): whatever
+    # is answered, the conversation with the server stays legal and complete - start, bodies, one final body; no hang
+    import random as _random
+    trng = _random.Random(5)
+    recs = []
+    for _ in range(4000):
+        r = gen_recipe(trng)
+        if r["kind"] == "file" and r["size"] >= 8:
+            recs.append(r)
+        if len(recs) >= (40 if tier == "quick" else 200):
+            break
+    truncated = 0
+    for r in recs:
+        for iface in ("wsgi", "asgi"):
+            mod, run = (wsgi_responses, run_wsgi) if iface == "wsgi" else (asgi_responses, run_asgi)
+            try:
+                line = mk(iface, "n", r)
+                rec = parse_line(line)
+                resp = build(rec, mod, None)
+                short = resp.filepath + ".short"
+                with open(resp.filepath, "rb") as f:
+                    data = f.read()
+                with open(short, "wb") as f:
+                    f.write(data[:len(data) // 2])
+                resp.filepath = short
+                out = with_alarm(20, run, rec, resp)
+            except OpTimeout:
+                out = "hang"
+            except _Ctor:
+                continue
+            truncated += 1
+            why = oracle(line, out)
+            if why:
+                violations.append({"line": "truncated-file %s range=%s zerocopy=%s size=%d" % (
+                    iface, r.get("range"), r.get("zerocopy"), r["size"]), "out": pretty(out)[:300],
+                    "why": "the file shrank to half after the response was built: %s" % why})
+    obs["truncated_file_runs"] = truncated
     # an event stream whose producer is slower than the ping interval: keep-alive comments are body chunks like any
     # other - bytes on WSGI, body events with more_body on ASGI
     import time as _time
